@@ -964,10 +964,16 @@ TARGETS = [
     ("F3", "_fteik/_fteik3d.py", [("t_ana", None, None), ("t_anad", None, None),
                                   ("sweep", None, ["tt", "ttsgn"]), ("sweep3d", None, ["tt", "ttsgn"]),
                                   ("fteik3d", None, None), ("fteik3d_vectorized", None, None)]),
-    ("I2", "_interp/_interp2d.py", [("_interp2d", None, None)]),
-    ("I3", "_interp/_interp3d.py", [("_interp3d", None, None)]),
-    ("V2", "_interp/_vinterp2d.py", [("_vinterp2d", None, None)]),
-    ("V3", "_interp/_vinterp3d.py", [("_vinterp3d", None, None)]),
+    # the `prange` wrappers carry no explicit signature: parameter types given here (as called by interp2d/…)
+    ("I2", "_interp/_interp2d.py", [("_interp2d", None, None),
+                                    ("_interp2d_vectorized", (["A1", "A1", "A2", "A1", "A1", F], "A1"), None)]),
+    ("I3", "_interp/_interp3d.py", [("_interp3d", None, None),
+                                    ("_interp3d_vectorized", (["A1", "A1", "A1", "A3", "A1", "A1", "A1", F], "A1"), None)]),
+    ("V2", "_interp/_vinterp2d.py", [("_vinterp2d", None, None),
+                                     ("_vinterp2d_vectorized", (["A1", "A1", "A2", "A1", "A1", F, F, F, F], "A1"), None)]),
+    ("V3", "_interp/_vinterp3d.py", [("_vinterp3d", None, None),
+                                     ("_vinterp3d_vectorized", (["A1", "A1", "A1", "A3", "A1", "A1", "A1", F, F, F, F, F], "A1"),
+                                      None)]),
 ]
 # names imported from other modules: (module key, name) -> module key of the definition
 IMPORTS = {"norm2d": "Common", "norm3d": "Common", "dist2d": "Common", "dist3d": "Common"}
@@ -1064,8 +1070,10 @@ GROUPS = {
     "KSolver3": (["F3"], {"sweep3d", "fteik3d"}, ["KCommon", "KSweep3"]),
     "KList2": (["F2"], {"fteik2d_vectorized"}, ["KCommon", "KSweep2", "KSolver2"]),
     "KList3": (["F3"], {"fteik3d_vectorized"}, ["KCommon", "KSweep3", "KSolver3"]),
-    "KInterp": (["I2", "I3"], None, ["KCommon"]),
-    "KVInterp": (["V2", "V3"], None, ["KCommon"]),
+    "KInterp": (["I2", "I3"], {"_interp2d", "_interp3d"}, ["KCommon"]),
+    "KVInterp": (["V2", "V3"], {"_vinterp2d", "_vinterp3d"}, ["KCommon"]),
+    "KListInterp": (["I2", "I3"], {"_interp2d_vectorized", "_interp3d_vectorized"}, ["KCommon", "KInterp"]),
+    "KListVInterp": (["V2", "V3"], {"_vinterp2d_vectorized", "_vinterp3d_vectorized"}, ["KCommon", "KVInterp"]),
 }
 
 
